@@ -255,6 +255,24 @@ def seq_bfs_case(p, res):
                 exp = exp * 16 + i + 1
             if [e[0] for e in sink.items] != list(range(1, n + 1)) or out != exp:
                 res.viol("sequential", cfg, "order", f"pipeline of {n} stages ran {[e[0] for e in sink.items]} -> {out}")
+        # two pipelines declared from the SAME list object, and the caller's list mutated afterwards: each pipeline keeps its own declaration
+        for op in ("add_to_first", "remove_from_first", "mutate_callers_list", "reverse_callers_list"):
+            sink = Sink()
+            L = [Rec(1, sink), Rec(2, sink), Rec(3, sink)]
+            m1, m2 = SequentialModel(L), SequentialModel(L)
+            if op == "add_to_first":
+                m1.add_step(Rec(4, sink))
+            elif op == "remove_from_first":
+                m1.remove_step(0)
+            elif op == "mutate_callers_list":
+                L.append(Rec(5, sink))
+            else:
+                L.reverse()
+            del sink.items[:]
+            out = m2(3)
+            res.ev(1, nontrivial=1, transitions=2)
+            if [e[0] for e in sink.items] != [1, 2, 3] or out != ((3 * 16 + 1) * 16 + 2) * 16 + 3:
+                res.viol("sequential", cfg, "order", f"after '{op}' on a sibling pipeline / the caller's list, a pipeline declared as [1,2,3] ran {[e[0] for e in sink.items]}")
     res.sample({"class": p["cls"], "depth": depth, "states": st["states"], "transitions": st["transitions"]})
 
 
